@@ -23,23 +23,37 @@ import sys
 
 from . import common, storage_driver as sd, tlc
 
-QUICK_FILES = ["tests/storages_tests/test_storages.py"]
+QUICK_FILES = ["tests/storages_tests/test_storages.py", "tests/storages_tests/test_cached_storage.py",
+               "tests/trial_tests/test_trial.py"]
 THOROUGH_FILES = QUICK_FILES + ["tests/study_tests/test_study.py", "tests/study_tests/test_optimize.py",
-                                "tests/trial_tests/test_trial.py", "tests/storages_tests/test_cached_storage.py",
-                                "tests/storages_tests/test_heartbeat.py", "tests/storages_tests/test_callbacks.py"]
+                                "tests/storages_tests/test_heartbeat.py", "tests/storages_tests/test_callbacks.py",
+                                "tests/storages_tests/journal_tests", "tests/study_tests/test_multi_objective.py",
+                                "tests/study_tests/test_constrained_optimization.py", "tests/trial_tests/test_trials.py",
+                                "tests/samplers_tests/test_brute_force.py", "tests/samplers_tests/test_grid.py",
+                                "tests/pruners_tests"]
 MAX_EVENTS = 260
 ERRORS = sd.ERRORS
 
 
-def record(files, out, repo=None, timeout=3000, extra=()):
+def start(files, out, repo=None, workers=8, extra=()):
+    """start pytest with the recorder in the tree under test; -> Popen.  The gRPC-parametrised tests are left out:
+    optuna.testing binds fixed ports, which collide with any other test run on the machine."""
     repo = repo or os.environ.get("VERIF_REPO") or "/repo"
     os.makedirs(out, exist_ok=True)
     env = dict(os.environ, VERIF_SUITE_OUT=out, PYTHONPATH=f"/verif:{repo}", PYTHONHASHSEED="0", GRPC_VERBOSITY="NONE")
     cmd = [sys.executable, "-m", "pytest", *files, "-q", "-p", "no:cacheprovider", "-p", "harness.suite_recorder",
-           "--timeout=900", "--color=no", "-x", *extra]
-    r = subprocess.run(cmd, cwd=repo, env=env, stdout=subprocess.PIPE, stderr=subprocess.STDOUT, text=True, timeout=timeout)
-    tail = "\n".join(r.stdout.strip().splitlines()[-6:])
-    return r.returncode, tail
+           "--timeout=900", "--color=no", "-n", str(workers), "-k", "not grpc", *extra]
+    return subprocess.Popen(cmd, cwd=repo, env=env, stdout=subprocess.PIPE, stderr=subprocess.STDOUT, text=True)
+
+
+def finish(proc, timeout=3000):
+    try:
+        out, _ = proc.communicate(timeout=timeout)
+    except subprocess.TimeoutExpired:
+        proc.kill()
+        raise tlc.MachineryError("the recorded test run did not finish in time")
+    lines = out.strip().splitlines()
+    return proc.returncode, (lines[-1] if lines else "")
 
 
 def load(out):
@@ -301,7 +315,7 @@ class Builder:
             return out({"a": "set_study_ua" if "user" in m else "set_study_sa", "s": self.S(a["study_id"]), "key": str(a["key"]),
                         "v": tk.attr(a["value"])}, 0)
         if m == "get_study_id_from_name":
-            return out({"a": m, "name": self.name(a["study_name"])}, self.S(r) if k == "ok" else None)
+            return out({"a": m, "name": self.name(a["study_name"])}, self.S(r) if k == "ok" else None)     # "auto": any of them
         if m == "get_study_name_from_id":
             return out({"a": "get_study_name", "s": self.S(a["study_id"])}, self.name(r) if k == "ok" else None)
         if m == "get_study_directions":
@@ -390,6 +404,7 @@ class Builder:
                 break
             if ev is not None:
                 ev["test"] = e["test"].split("::", 1)[-1][:120]
+                ev["nodeid"] = e["test"].replace("::teardown", "")
                 ev["cls"] = e["cls"]
                 out.append(ev)
         return out, cut
